@@ -118,12 +118,14 @@ theorem C09_add_free_accepts (s : St) (o : Obj) (refs : List Nat) (h : Inv s) (h
 /-- A static / dynamic obstacle that carries a lanelet assignment (`initial_shape_lanelet_ids`), with a free id: it is
     stored and its id reserved exactly like an obstacle without assignment (same state), but the call then registers
     it on its lanelets and raises AttributeError when one of them does not exist while the network has lanelets — an
-    operation that fails half-way.  The invariant holds afterwards all the same (C09_inv_step). -/
+    operation that fails half-way (`Role.onLanelets`: only the static and the dynamic branch of `add_objects` register;
+    an environment / phantom obstacle is never registered, so its outcome is ok).  The invariant holds afterwards all the
+    same (C09_inv_step). -/
 theorem C09_add_obstacle_with_lanelets (s : St) (r : Role) (k : Nat) (on refs : List Nat) (hf : k ∉ allIds s) (h : Inv s) :
     (step s (.add (.obstacleOn r k on) refs)).1 = (step s (.add (.obstacle r k) refs)).1 ∧
     Contains (step s (.add (.obstacleOn r k on) refs)).1 (.obstacle r k) ∧
     (step s (.add (.obstacleOn r k on) refs)).2
-      = if s.net.lanelets.isEmpty ∨ ∀ x ∈ on, x ∈ lids s.net then .ok else .err .attr := by
+      = if r.onLanelets = false ∨ s.net.lanelets.isEmpty ∨ ∀ x ∈ on, x ∈ lids s.net then .ok else .err .attr := by
   have hk : k ∉ s.idSet := fun hx => hf ((((inv_iff s).mp h).1.2 k).mp hx)
   refine ⟨addObstacleOn_fst s r k on refs, ?_, ?_⟩
   · show Contains (addObj s (.obstacleOn r k on) refs).1 _
